@@ -27,4 +27,8 @@ CASES = [
          old="if not any(v is NO_VALUE for v in values):", new="if all(v is not NO_VALUE for v in values):")]),
     dict(expect="fire", desc="with_latest_from: marker compared by equality inside any()", names="G1-gating", edits=[dict(file="reactivex/observable/withlatestfrom.py",
          old="if not any(v is NO_VALUE for v in values):", new="if not any(v == NO_VALUE for v in values):")]),
+    dict(expect="fire", desc="mutant: reactivex.amb drops the accumulation", names="A1-amb-fold", edits=[dict(file="reactivex/observable/amb.py",
+         old="        acc = func(acc, source)", new="        func(acc, source)")]),
+    dict(expect="silent", desc="reactivex.amb: fold written without the helper", edits=[dict(file="reactivex/observable/amb.py",
+         old="        acc = func(acc, source)", new="        acc = _.amb(acc)(source)")]),
 ]
